@@ -2249,3 +2249,12 @@ variant('b-collector-count-advanced-after-the-test', ['C01'], 'rsocket/awaitable
 variant('t-collector-count-expanded', ['C01'], 'rsocket/awaitable/collector_subscriber.py',
         "        self._total_received_count += 1\n", "        self._total_received_count = self._total_received_count + 1\n",
         kind='twin')
+
+# C01.h the adapter does not shield the socket's future
+variant_multi('b-awaitable-response-shielded', ['C10', 'C09', 'C01'], [
+    ('rsocket/awaitable/awaitable_rsocket.py', "        return await self._rsocket.request_response(payload)",
+     "        return await asyncio.shield(self._rsocket.request_response(payload))")],
+    ('C01.h', 'AwaitableRSocket.request_response'))
+variant('t-awaitable-response-through-a-local', ['C10', 'C01'], 'rsocket/awaitable/awaitable_rsocket.py',
+        "        return await self._rsocket.request_response(payload)",
+        "        response = await self._rsocket.request_response(payload)\n        return response", kind='twin')
